@@ -912,7 +912,7 @@ def replay(prop, path, seed):
         with open(tr, "w") as f:
             f.write(json.dumps(c["record"]) + "\n")
         # a recorded iterator history is re-validated as recorded (the history itself is the counterexample) after re-executing it is not possible without its RNG; report the validator's verdict
-        n, viol, summ = C.validate_trace(ctx, "Trace_MemchrIter", tr, {}, "iter")
+        n, viol, summ = C.validate_trace(ctx, "Trace_Objects" if "hs" in c["record"] else "Trace_MemchrIter", tr, {}, "iter")
         print(json.dumps({"violations": [t for (_, t) in viol]}))
         if viol:
             print("VIOLATION property=%s replay=%s" % (prop, path))
